@@ -233,3 +233,45 @@ Theorem C03_any_xml_indent_code_structure : forall xmlpi ext pind xmi st prefix 
   = PureG27.any_xml_indent_spec xmlpi ext pind st v prefix indent (fst (PureG27.any_tags tags)) (snd (PureG27.any_tags tags)).
 Proof. exact PureG27.any_xml_indent_code_structure. Qed.
 Print Assumptions C03_any_xml_indent_code_structure.
+
+(* ---- the Map encoder in INDENTED mode (doIndent = true), translated from the current sources with the translated pretty.Indent /
+   Outdent: the items of the compact mode, each written as in compact mode, with only padding (newlines, the prefix followed by
+   copies of the indent) before them - no padding inside or before text; the pretty record is handed back unchanged; an error
+   exactly where the model errs; never a panic (GenProofs/PureG28.v).  (While this was being proved the Go code wrote an EMPTY
+   LIST member with the padding once more INSIDE its tag, "<e  />": repaired in /repo 77c834d, KNOWN_FINDINGS fixed C16; the
+   statement below has no exception left.) *)
+From Mxj Require GenProofs.PureG28.
+
+Theorem C03_marshal_map_indent_code_is_enc : forall o st, enc_view st o ->
+  forall prefix indent m t i c p m' t', PureG28.pp_reach st prefix indent m t (i, c, p, m', t') ->
+  forall xm xmi v f key b, vdepth v <= f -> text_dom o v = true ->
+  (forall its, enc o v key = Ok its ->
+     exists out,
+       fn_marshalMapToXmlIndent (PureG15.run_escapeChars st) (PureG28.run_Indent st) (PureG28.run_Outdent st) sort_rows sort_vrows xm xmi f st true b key v i c p m' t' =
+       Ret (None, (b ++ out, i, c, p, m', t')) /\
+       PureG28.padded prefix indent its out) /\
+  (forall e, enc o v key = Err e ->
+     exists e' b',
+       fn_marshalMapToXmlIndent (PureG15.run_escapeChars st) (PureG28.run_Indent st) (PureG28.run_Outdent st) sort_rows sort_vrows xm xmi f st true b key v i c p m' t' =
+       Ret (Some e', (b', i, c, p, m', t'))) /\
+  enc o v key <> Panic.
+Proof. exact PureG28.marshal_map_indent_code_is_enc_translated. Qed.
+Print Assumptions C03_marshal_map_indent_code_is_enc.
+
+(* the compact items with pads in the gaps - the form under which the theorems above decode the document *)
+Theorem C03_marshal_map_indent_code_insert_ws : forall o st, enc_view st o ->
+  forall prefix indent m t i c p m' t', PureG28.pp_reach st prefix indent m t (i, c, p, m', t') ->
+  forall xm xmi v f key b its, vdepth v <= f -> text_dom o v = true -> enc o v key = Ok its ->
+  exists ws,
+    fn_marshalMapToXmlIndent (PureG15.run_escapeChars st) (PureG28.run_Indent st) (PureG28.run_Outdent st) sort_rows sort_vrows xm xmi f st true b key v i c p m' t' =
+    Ret (None, (b ++ emit (Items.insert_ws ws its), i, c, p, m', t')) /\
+    (forall j, PureG28.pad_ok prefix indent (ws j)) /\
+    (forall o', Items.ws_str o' prefix = true -> Items.ws_str o' indent = true -> Items.ws_str o' PureG28.nl_str = true -> Items.ws_ok o' ws).
+Proof. exact PureG28.marshal_map_indent_code_insert_ws. Qed.
+Print Assumptions C03_marshal_map_indent_code_insert_ws.
+
+Theorem C03_pad_is_xml_whitespace : forall prefix indent,
+  PureG28.xml_wsb prefix = true -> PureG28.xml_wsb indent = true ->
+  (forall w, PureG28.pad_ok prefix indent w -> PureG28.xml_wsb w = true) /\ (forall k, PureG28.xml_wsb (PureG28.pdg prefix indent k) = true).
+Proof. exact PureG28.pad_is_xml_whitespace. Qed.
+Print Assumptions C03_pad_is_xml_whitespace.
